@@ -17,6 +17,26 @@ use mv_engine::Run;
 
 fn main() {
     let args: Vec<String> = std::env::args().skip(1).collect();
+    if args.first().map(|s| s.as_str()) == Some("warmup") {
+        // pre-builds the dependencies of generated crates (mina, mv-core, serde_json, ...) so that the
+        // first generated batch does not pay for them
+        let src = "use mina::prelude::*;\nuse mv_core::desc::P;\nfn main() { let _ = timeline!(P 1s to { a: 1.0 }); }\n".to_string();
+        match harness::make_crate("warmup", &[("warm", src)], true) {
+            Ok(c) => {
+                let (ok, diags, err) = harness::build(&c, "warm", 0);
+                let _ = std::fs::remove_dir_all(&c.dir);
+                if !ok {
+                    eprintln!("warmup build failed: {:?} {}", diags.first(), err);
+                    std::process::exit(2);
+                }
+                std::process::exit(0);
+            }
+            Err(e) => {
+                eprintln!("warmup: {e}");
+                std::process::exit(2);
+            }
+        }
+    }
     let Some(mut run) = Run::from_args(&args) else {
         eprintln!("usage: gen <C15|C16|C17> [quick|thorough] | gen replay <Cnn> <file>");
         std::process::exit(2);
